@@ -164,7 +164,7 @@ def grid():
 def plan(tier, seed):
     if tier == 'quick':
         return [dict(kind='random', first=i * 400, count=400, budget_s=40) for i in range(8)]
-    specs = [dict(kind='random', first=i * 3000, count=3000, budget_s=240) for i in range(8)]
+    specs = [dict(kind='random', first=i * 20000, count=20000, budget_s=400) for i in range(8)]
     specs += [dict(kind='grid', part=i, parts=6, budget_s=240) for i in range(6)]
     return specs
 
